@@ -77,7 +77,10 @@ def make_device(name, beh, ctx):
                 ev["raises"] = True
                 raise ProbeFailure(f"probe-fail:{name}:{n}")
             outs = {}
-            for o in beh.get("outs", []):
+            if beh.get("relay"):
+                # a pass-through device: it hands back the very mapping it was given (outputs alias inputs)
+                outs = inputs
+            for o in ([] if beh.get("relay") else beh.get("outs", [])):
                 om = o.get("omit_mod", 0)
                 if om and n % om == o.get("omit_phase", 0):
                     continue
